@@ -134,6 +134,14 @@ check("definition flipped alone", "with TOTALS as (select 1 as a) select a from 
 check("reference flipped alone", "with totals as (select 1 as a) select a from TOTALS" in singles, True)
 check("quoting one occurrence", 'with totals as (select 1 as a) select a from "TOTALS"' in
       [R.render(toksc, f, qs) for _l, f, qs in R.quotings(toksc, "quick")], True)
+# statements whose rest sqlglot's tokenizer swallows as one pseudo string (CALL, EXECUTE, EXPLAIN, PUT, REMOVE, ...)
+check("call", kinds("call my_proc(1, 'aB')"), [("call", "fold"), ("my_proc", "fold"), ("(", "fixed"), ("1", "fixed"), (",", "fixed"), ("'aB'", "fixed"), (")", "fixed")])
+check("execute immediate", fold_words("execute immediate 'select 1'"), ["execute", "immediate"])
+check("execute immediate constant", fixed_words("execute immediate 'select A'"), ["'select A'"])
+check("explain", fold_words("explain select k from t"), ["explain", "select", "k", "from", "t"])
+check("put", (fold_words("put 'file:///tmp/xY' @stage1"), fixed_words("put 'file:///tmp/xY' @stage1")), (["put", "stage1"], ["'file:///tmp/xY'"]))
+check("remove", fold_words("remove @stage1"), ["remove", "stage1"])
+check("call reassembles", R.render(R.lex("call  my_proc(1)"), "u"), "CALL  MY_PROC(1)")
 # reassembly and marks
 tpl = "select ~k, \"cA\" from ~db1.~s1.~t  where ~k = 'x' -- end"
 toks = R.lex(tpl)
@@ -281,7 +289,8 @@ check("no unclassified tokens", unclassified, [])
 check("template ids unique", len({t.id for t in c02.TEMPLATES}), len(c02.TEMPLATES))
 kinds_needed = {"SELECT", "INSERT", "UPDATE", "DELETE", "TRUNCATE", "MERGE", "CREATE TABLE", "CREATE VIEW",
                 "CREATE SCHEMA", "CREATE DATABASE", "DROP", "ALTER", "COMMENT", "USE", "SHOW", "DESCRIBE", "SET",
-                "UNSET", "TRANSACTION", "IS_QUERY", "FUNCTION", "CONNECT", "ERROR"}
+                "UNSET", "TRANSACTION", "IS_QUERY", "FUNCTION", "CONNECT", "ERROR", "TAG", "USER", "COMMAND",
+                "COMMAND_DDL", "NOP"}
 check("kinds covered", {t.kind for t in c02.TEMPLATES}, kinds_needed)
 m = c02.model_after(None)
 check("prelude model", [(o[1], o[2], o[4]) for o in m.objects()], [
@@ -309,7 +318,7 @@ check("status of quoted name folded", [(x[1], x[2]) for x in c02.own_result_find
       [("kind=case,name=quoted,stmt=CREATE TABLE", True)])
 
 # session flavours
-check("flavours", sorted(c02.SESSIONS), ["full", "nodb", "noschema", "q", "qd", "qs"])
+check("flavours", sorted(c02.SESSIONS), ["full", "nodb", "nop", "noschema", "q", "qd", "qs"])
 check("flavours used", {t.session for t in c02.TEMPLATES}, set(c02.SESSIONS))
 m = c02.model_after(None, session="nodb")
 check("nodb context", (m.cur_db, m.cur_schema), (None, None))
@@ -348,6 +357,52 @@ check("quick sweeps: read-only", (c02.sweep_labels(c02.TPL["sel_join"], "quick")
 check("quick sweeps: one read-only template per flavour",
       sorted(c02.TPL[t].session for t in c02.QUICK_SHARED_SWEEPS), sorted(c02.SESSIONS))
 check("thorough sweeps", (c02.sweep_labels(c02.TPL["sel_join"], "thorough"), c02.sweep_labels(c02.TPL["upd"], "thorough")), (("all:u",), c02.CANONICAL))
+
+# ---- statement families answered from the statement text: each must be present, with every keyword a flip token
+def fold_seq(t):
+    return [tk.text.lower() for tk in R.lex(t.sql) if tk.kind == "fold"]
+
+
+def is_subseq(need, have):
+    it = iter(have)
+    return all(any(x == w for x in it) for w in need)
+
+
+for fam, words in c02.TEXT_FAMILIES.items():
+    hits = [t for t in c02.TEMPLATES if t.layout == "1" and is_subseq(words, fold_seq(t))]
+    check(f"family {fam} has a template", bool(hits), True)
+    if not hits:
+        continue
+    t = min(hits, key=lambda x: len(fold_seq(x)))
+    toks = R.lex(t.sql)
+    for tier in ("quick", "thorough"):
+        singles = {R.render(toks, f) for lab, f in R.spellings(toks, tier)}
+        for w in words:
+            # some spelling has exactly this keyword (one occurrence of it) in upper case and every other token lower
+            idx = [i for i in R.foldable(toks) if toks[i].text.lower() == w]
+            ok = any(R.render(toks, {i: "u"}) in singles for i in idx)
+            check(f"family {fam}: keyword {w} flipped on its own ({tier}, {t.id})", ok, True)
+    check(f"family {fam}: whole-statement forms", {lab for lab, _ in R.spellings(toks, "quick")} >= {"all:l", "all:u"}, True)
+# the families fakesnow answers itself are also laid out with two blanks and with newlines, each layout with its own
+# all-lower reference (only letter case varies inside a layout)
+for t in c02.TEMPLATES:
+    if t.layout == "1" and t.kind in c02.LAYOUT_KINDS:
+        for lay, sep in (("2sp", "  "), ("nl", "\n")):
+            r = c02.TPL[f"{t.id}~{lay}"]
+            check(f"{r.id}: same tokens", [tk.text for tk in R.lex(r.sql) if tk.kind != "gap"],
+                  [tk.text for tk in R.lex(t.sql) if tk.kind != "gap"])
+            check(f"{r.id}: gaps", {tk.text for tk in R.lex(r.sql) if tk.kind == "gap"} <= {sep}, True)
+            check(f"{r.id}: marks kept", [tk.text for tk in R.lex(r.sql) if tk.name], [tk.text for tk in R.lex(t.sql) if tk.name])
+            check(f"{r.id}: session, kind", (r.session, r.kind, r.layout), (t.session, t.kind, lay))
+check("layout example", c02.TPL["tag_column_modify_set~nl"].sql.replace("~", ""),
+      "alter\ntable\nt\nmodify\ncolumn\nk\nset\ntag\ncost_center\n=\n'sales'")
+check("layout kinds in quick", (c02.in_tier(c02.TPL["tag_schema_set~2sp"], "quick"), c02.in_tier(c02.TPL["grant_table~2sp"], "quick"),
+                                c02.in_tier(c02.TPL["grant_table~2sp"], "thorough")), (True, False, True))
+check("nop flavour patterns are not all upper case", [p for p in c02.NOP_REGEXES if p.upper() == p], [])
+check("nop templates", sorted(t.id for t in c02.TEMPLATES if t.session == "nop" and t.layout == "1"),
+      ["nop_alter_session", "nop_call", "nop_copy_into", "nop_grant", "nop_unmatched"])
+# names given as a string are filed separately by the sweep
+check("via", c02.TPL["fn_identifier_create"].via, ("identifier()", ["t8"]))
 
 # facets and classifier
 ref = {f: 0 for f in c02.FACETS}
